@@ -264,6 +264,31 @@ TextVia(ch, text) == text
 \* (Path has no "display" form: its cast takes text values only, it does not parse)
 TypedCastForms == {"from_any", "serde", "sval", "owned", "display"}
 
+\* how a trace-flags value comes about: level A is the byte b whatever the form (the operators are
+\* the bitwise ones on that byte); FlagOperands(f, b) are the operand bytes the form is applied to
+FlagForms == {"from_u8", "const", "not", "or", "and"}
+FlagOperands(f, b) ==
+    LET hi == (b \div 16) * 16   lo == b % 16 IN
+    IF f = "not" THEN <<255 - b>>                    \* !x
+    ELSE IF f = "or" THEN <<b - (b % 4), b % 64>>       \* x | y  (b without its 2 low bits, b without its 2 high bits)
+    ELSE IF f = "and" THEN <<hi + 15, 240 + lo>>     \* x & y
+    ELSE <<b>>                                       \* from_u8(b); const: EMPTY / SAMPLED when b is 0 / 1
+\* ... and a rejection is a value as well ("returns a value or an error"): the error of every
+\* Result-returning entry point of every parser gets out through these channels, each of which gives a
+\* message - total (never panics) and not empty -, and one message whatever the channel (Debug excepted:
+\* it shows the structure; the statement does not fix the wording of either).
+ErrorChannels == {
+    "display",            \* Display / format!("{}")
+    "to_string",          \* ToString
+    "display-padded",     \* Display under width / fill flags (the message is inside)
+    "dyn-error",          \* Display through &dyn std::error::Error
+    "to_value",           \* ToValue for dyn Error, then Display of the Value
+    "capture_error",      \* Value::capture_error, then Display
+    "debug"}              \* Debug
+SameMessageChannels == ErrorChannels \ {"debug", "display-padded"}
+\* what an error channel must give for a message msg (a non-empty text): that message; "contains" it; any non-empty text
+ErrorVia(ch) == IF ch \in SameMessageChannels THEN "same" ELSE IF ch = "display-padded" THEN "contains" ELSE "nonempty"
+
 -----------------------------------------------------------------------------
 (* all verdicts of one text *)
 Verdicts(t) ==
